@@ -8,6 +8,7 @@ pub mod hostile;
 pub mod hostile_gen;
 pub mod hostile_mut;
 pub mod hostile_tcp;
+pub mod hostile_turn;
 pub mod icestun;
 pub mod latch;
 pub mod pc_close;
@@ -36,6 +37,7 @@ pub async fn dispatch(ctx: &Ctx) {
         "srtp_gate_pc" => srtpgate_pc::run(ctx).await,
         "hostile" => hostile::run(ctx).await,
         "hostile_tcp" => hostile_tcp::run(ctx).await,
+        "hostile_turn" => hostile_turn::run(ctx).await,
         other => ctx.violate("HARNESS.scenario", format!("unknown scenario {other}")),
     }
 }
@@ -78,7 +80,7 @@ pub fn budget(prop: &str, tier: Tier) -> u64 {
         ("C10", t) => pc_connect::budget(prop, t),
         ("C17", t) => pc_close::budget(prop, t),
         ("C14", t) => srtpgate::budget(prop, t) + srtpgate_pc::budget(prop, t),
-        ("C07", t) => hostile::budget(prop, t) + hostile_tcp::budget(prop, t),
+        ("C07", t) => hostile::budget(prop, t) + hostile_tcp::budget(prop, t) + hostile_turn::budget(prop, t),
         ("C01", Tier::Quick) => 40_000,
         ("C01", Tier::Thorough) => 600_000,
         ("C12", Tier::Quick) => 6000,
@@ -105,17 +107,21 @@ fn c14_generate(prop: &str, seed: u64, idx: u64, tier: Tier) -> Plan {
     }
 }
 
-/// C07 is decided by two scenarios that share one index space (same layout as C14 / C02): within every block of
-/// `hostile::budget + hostile_tcp::budget` indices the first `hostile::budget` belong to `hostile` (block 0 = its
-/// enumerated core + swarm, unchanged) and the following `hostile_tcp::budget` to `hostile_tcp` (hostile bytes on
-/// ICE-TCP streams; its first 120 indices enumerate shape x phase x end x listener kind).
+/// C07 is decided by three scenarios that share one index space (same layout as C14 / C02): within every block of
+/// `hostile::budget + hostile_tcp::budget + hostile_turn::budget` indices the first `hostile::budget` belong to
+/// `hostile` (block 0 = its enumerated core + swarm, unchanged), the following `hostile_tcp::budget` to `hostile_tcp`
+/// (hostile bytes on ICE-TCP streams; its first 120 indices enumerate shape x phase x end x listener kind) and the last
+/// `hostile_turn::budget` to `hostile_turn` (a hostile TURN server over UDP / TCP; its first 88 indices enumerate
+/// shape x stage x transport).
 fn c07_generate(prop: &str, seed: u64, idx: u64, tier: Tier) -> Plan {
-    let (a, b) = (hostile::budget(prop, tier), hostile_tcp::budget(prop, tier));
-    let (block, off) = (idx / (a + b), idx % (a + b));
+    let (a, b, c) = (hostile::budget(prop, tier), hostile_tcp::budget(prop, tier), hostile_turn::budget(prop, tier));
+    let (block, off) = (idx / (a + b + c), idx % (a + b + c));
     if off < a {
         hostile::generate(prop, seed, block * a + off, tier)
-    } else {
+    } else if off < a + b {
         hostile_tcp::generate(prop, seed, block * b + (off - a), tier)
+    } else {
+        hostile_turn::generate(prop, seed, block * c + (off - a - b), tier)
     }
 }
 
